@@ -37,7 +37,10 @@ RULE = ("One run = one vertex-based shape (Polyhedron, ConvexPolyhedron, Polygon
         "minimal_bounding_sphere/_circle, the *_radius getter or the *_radius setter; per query "
         "the schedule fixes both global RNG seeds (pivot order, retry rotations) and a solver "
         "fault script (LinAlgError before attempt k: first-k, random subset, alternating, all "
-        "ten); a final fault-free query checks progress. The first 4*11 run indices are "
+        "ten); a final fault-free query checks progress. The *_radius getter is also judged end to "
+        "end against a certified reference radius computed by the harness outside the simulated "
+        "step (so a memoised or stale radius is seen even when the getter makes no solver call); "
+        "8 % of ball queries go through the deprecated spelling bounding_sphere/bounding_circle. The first 4*11 run indices are "
         "stratified (class x first-k faults, k=0..10). Non-trivial = at least one solver attempt "
         "was recorded; distinct = distinct sha256 digests of the event log (seeds, attempts, "
         "raw r^2 as hex, verdicts).")
@@ -99,6 +102,39 @@ def recover_rotation(V, W):
     res = float(np.sqrt(np.mean(np.sum((V @ R.T - W) ** 2, axis=1))))
     size = float(np.sqrt(np.mean(np.sum(V ** 2, axis=1)))) or 1.0
     return R, res / size
+
+
+def reference_radius(V, real_solver, seed):
+    """Independent end-to-end reference: the radius of a *certified* minimum
+    enclosing ball of V, obtained by running the real solver outside the
+    simulated step under the harness's own pivot seeds / rotations until its
+    answer passes the optimality certificate.  None if no attempt certifies."""
+    import random as _random
+
+    V = np.asarray(V, float)
+    if real_solver is None or not np.all(np.isfinite(V)):
+        return None
+    state = _random.getstate()
+    rs = np.random.RandomState(seed & 0x7FFFFFFF)
+    try:
+        for k in range(12):
+            _random.seed((seed * 31 + k) & 0xFFFFFFFF)
+            if k == 0:
+                W = V
+            else:
+                q = rs.normal(size=(V.shape[1], V.shape[1]))
+                Q, _ = np.linalg.qr(q)
+                W = V @ Q.T
+            try:
+                c, r2 = real_solver(W)
+            except Exception:  # noqa: BLE001 - a failing attempt: try another placement
+                continue
+            r = float(np.sqrt(max(float(r2), 0.0)))
+            if certificate(W, np.asarray(c, float), r) is None:
+                return r
+    finally:
+        _random.setstate(state)
+    return None
 
 
 # --------------------------------------------------------------------------
@@ -185,6 +221,8 @@ def gen_spec(seed, index, tier):
             # hostile caller: scribble on the returned ball afterwards (it must be the
             # caller's own object, not state the next query depends on)
             st["scribble"] = ops.chance(0.3)
+            # the deprecated spelling (bounding_sphere / bounding_circle) must give the same ball
+            st["alias"] = ops.chance(0.08)
         steps.append(st)
     steps.append({"op": "ball", "pyseed": ops.u32(), "npseed": ops.u32(), "solver_script": [],
                   "progress": True})
@@ -194,7 +232,7 @@ def gen_spec(seed, index, tier):
 def sample(spec):
     return {"base": {k: spec["base"].get(k) for k in ("cls", "family")},
             "n_vertices": len(spec["base"]["vertices"]),
-            "steps": [{k: s[k] for k in ("op", "solver_script", "factor", "bad", "scribble",
+            "steps": [{k: s[k] for k in ("op", "solver_script", "factor", "bad", "scribble", "alias",
                                          "pyseed", "npseed", "progress") if k in s}
                       for s in spec["steps"]]}
 
@@ -297,7 +335,8 @@ def execute(spec, world):
         with world.step(st["pyseed"], st["npseed"], solver_script=script, use_fs=False):
             try:
                 if op == "ball":
-                    out = getattr(shape, ball_name)
+                    out = getattr(shape, ball_name.replace("minimal_", "")
+                                  if st.get("alias") else ball_name)
                 elif op == "radius":
                     out = getattr(shape, rad_name)
                 elif op in ("set_radius_bad", "refused_rescale"):
@@ -405,9 +444,29 @@ def execute(spec, world):
                         PROP, "L1-unrotation", "radius getter returned %r, solver said %r" % (
                             float(out), expect), si, site=_site(shape, rad_name),
                         what="radius"))
-            # end-to-end: a ball of that radius must exist around some centre: the radius
-            # must be >= the largest half-distance and the vertex set must fit; judged via
-            # the fault-free progress query at the end of the run
+            # end to end (also when the getter made no solver call at all, e.g. a memo):
+            # against a certified reference radius computed outside the simulated step
+            raw_bad = None
+            if ok_attempts:
+                c_raw, r2_raw = ok_attempts[-1]["raw"]
+                raw_bad = certificate(ok_attempts[-1]["W"], c_raw, np.sqrt(max(r2_raw, 0.0)))
+            ref = reference_radius(V, world.solver.real, st["pyseed"])
+            if ref is None:
+                C["reference_radius_unavailable"] += 1
+            elif raw_bad:
+                C["solver_uncertified_raw"] += 1
+                if abs(float(out) - ref) > 1e-5 * ref:
+                    res["violations"].append(violation(
+                        PROP, "L2-certificate", "radius getter passed on a radius the solver got "
+                        "wrong (%s)" % raw_bad, si, attribution="solver-uncertified-raw"))
+            else:
+                C["radius_getter_checked_end_to_end"] += 1
+                if not (abs(float(out) - ref) <= 1e-5 * ref):
+                    res["violations"].append(violation(
+                        PROP, "L2-certificate", "radius getter returned %r, the certified minimal "
+                        "radius of the current vertices is %r (%d solver attempts in this call)"
+                        % (float(out), ref, len(attempts)), si, attribution="coxeter", cls=cls,
+                        what="radius-wrong", op=op))
         else:
             # setter succeeded: pure similarity about the origin, then read back
             s_num = float(np.vdot(V, Vafter) / max(np.vdot(V, V), 1e-300))
